@@ -125,7 +125,7 @@ def parts(tier, rng):
            RQPart("random-long", "respq", rnd, shards=16, rule="random schedules with 5..12 requests")]
     # connection level: real v3/v5 servers, the responses (PUBACK / PUBREC / PUBCOMP / SUBACK / UNSUBACK /
     # PINGRESP) seen by the peer are in the order of the requests they answer
-    for p in IB.make_parts(tier, rng, ("C04",), clients=False):
+    for p in IB.make_parts(tier, rng, ("C04",), clients=True):
         p.name = "connection-" + p.name
         res.append(p)
     # .. and when the requests reach the server in one read (burst engines)
